@@ -25,8 +25,11 @@ MkA(par, okf, gtf, wf) ==
     [b \in Blocks |->
         [parent |-> par[b], height |-> HeightOf(par, b), gt |-> gtf[b],
          bf |-> <<0, 0, wf[b]>>, ok |-> okf[b],
-         ins |-> IF b = 1 THEN {} ELSE {<<"g", b>>},
-         outs |-> IF b = 1 THEN {<<"g", c>> : c \in 2..N} ELSE {<<"o", b>>}]]
+         \* with a long retention window every block spends its own output of the root; with a
+         \* short one (the root's outputs are purged early) the output of its parent, as the
+         \* harness world does
+         ins |-> IF b = 1 THEN {} ELSE IF G < 50 THEN {<<"o", par[b]>>} ELSE {<<"g", b>>},
+         outs |-> IF b = 1 /\ G >= 50 THEN {<<"g", c>> : c \in 2..N} ELSE {<<"o", b>>}]]
 
 MCInit ==
     /\ \E par \in Trees, okf \in [Blocks -> BOOLEAN], wf \in [Blocks -> Weights],
@@ -37,7 +40,7 @@ MCInit ==
           /\ A = MkA(par, okf, gtf, wf)
     /\ S = EmptyState
     /\ w = Idle
-    /\ last = [b |-> None, res |-> "none", ok |-> TRUE]
+    /\ last = [b |-> None, res |-> "none", ok |-> TRUE, same |-> TRUE, det |-> FALSE]
     /\ h = <<>>
 
 Deliver(b) ==
@@ -50,8 +53,9 @@ MCUnwind == UnwindStep /\ UNCHANGED h
 MCWind   == WindStep /\ UNCHANGED h
 MCUnNew  == UnNewStep /\ UNCHANGED h
 MCRewind == RewindStep /\ UNCHANGED h
+MCCrash  == CrashStep /\ UNCHANGED h
 
-MCNext == (\E b \in Blocks : Deliver(b)) \/ MCUnwind \/ MCWind \/ MCUnNew \/ MCRewind
+MCNext == (\E b \in Blocks : Deliver(b)) \/ MCUnwind \/ MCWind \/ MCUnNew \/ MCRewind \/ MCCrash
 
 MCSpec == MCInit /\ [][MCNext]_mcvars /\ WF_mcvars(Step /\ UNCHANGED h)
 
